@@ -1,4 +1,4 @@
-(** Model of src/epd2in7b/mod.rs — STUB, not yet transcribed. *)
+(** Model of src/epd2in7b/mod.rs. *)
 From Coq Require Import List NArith Bool.
 From EPD Require Import Iface Ops Drv.Luts.
 Import ListNotations.
@@ -8,11 +8,158 @@ Open Scope m_scope.
 Module Epd2in7b.
 Definition WIDTH : N := 176.
 Definition HEIGHT : N := 264.
+Definition IS_BUSY_LOW := true.
 
-Definition init : M unit := ret tt.
+(** Color::get_byte_value *)
+Definition get_byte_value (c : N) : N := if c =? cWhite then 0xff else 0x00.
+(** [!v] on u8 *)
+Definition not8 (v : N) : N := 255 - u8 v.
 
-Definition exec (k : N) (o : op) : option (M rval) := None.
+Definition wait_until_idle : M unit := wait_idle IS_BUSY_LOW.
+
+(** private helpers [command], [send_data] of the driver *)
+Definition command (c : N) : M unit := cmd c.
+Definition send_data (l : list N) : M unit := data l.
+
+(** [for b in buffer.iter() { self.send_data(spi, &[!b])?; }] *)
+Definition send_buffer_helper (e : dexp) : M unit := data_each BNot 1 e.
+
+Definition set_lut (r : option N) : M unit :=
+  wait_until_idle ;;
+  cmd_with_data 0x20 epd2in7b_LUT_VCOM_DC ;;
+  cmd_with_data 0x21 epd2in7b_LUT_WW ;;
+  cmd_with_data 0x22 epd2in7b_LUT_BW ;;
+  cmd_with_data 0x23 epd2in7b_LUT_WB ;;
+  cmd_with_data 0x24 epd2in7b_LUT_BB.
+
+Definition init : M unit :=
+  reset 10000 2000 ;;
+  command 0x04 ;;
+  delay_us 5000 ;;
+  wait_until_idle ;;
+  cmd_with_data 0x00 [0xaf] ;;
+  cmd_with_data 0x30 [0x3a] ;;
+  cmd_with_data 0x01 [0x03; 0x00; 0x2b; 0x2b; 0x09] ;;
+  cmd_with_data 0x06 [0x07; 0x07; 0x17] ;;
+  cmd_with_data 0xf8 [0x60; 0xa5] ;;
+  cmd_with_data 0xf8 [0x89; 0xa5] ;;
+  cmd_with_data 0xf8 [0x90; 0x00] ;;
+  cmd_with_data 0xf8 [0x93; 0x2a] ;;
+  cmd_with_data 0xf8 [0x73; 0x41] ;;
+  cmd_with_data 0x82 [0x12] ;;
+  cmd_with_data 0x50 [0x87] ;;
+  set_lut None ;;
+  cmd_with_data 0x16 [0x00] ;;
+  wait_until_idle.
+
+Definition sleep : M unit :=
+  wait_until_idle ;;
+  cmd_with_data 0x50 [0xf7] ;;
+  command 0x02 ;;
+  wait_until_idle ;;
+  cmd_with_data 0x07 [0xA5].
+
+Definition update_frame (k len : N) : M unit :=
+  cmd 0x10 ;;
+  send_buffer_helper (DArg k 0 0 len) ;;
+  cmd 0x13 ;;
+  s <- get ;;
+  data_x_times (not8 (get_byte_value (bg s))) (WIDTH / 8 * HEIGHT) ;;
+  cmd 0x11.
+
+(** the eight window bytes, each through its own [send_data] call *)
+Definition send_window (x y width height : N) : M unit :=
+  send_data [u8 (shr x 8)] ;;
+  send_data [u8 (band x 0xf8)] ;;
+  send_data [u8 (shr y 8)] ;;
+  send_data [u8 (band y 0xff)] ;;
+  send_data [u8 (shr width 8)] ;;
+  send_data [u8 (band width 0xf8)] ;;
+  send_data [u8 (shr height 8)] ;;
+  send_data [u8 (band height 0xff)].
+
+Definition update_partial_frame (k len x y width height : N) : M unit :=
+  cmd 0x14 ;;
+  send_window x y width height ;;
+  wait_until_idle ;;
+  send_buffer_helper (DArg k 0 0 len) ;;
+  cmd 0x11.
+
+Definition display_frame : M unit :=
+  command 0x12 ;;
+  wait_until_idle.
+
+Definition update_and_display_frame (k len : N) : M unit :=
+  update_frame k len ;;
+  command 0x12.
+
+Definition clear_frame : M unit :=
+  wait_until_idle ;;
+  s <- get ;;
+  let color_value := get_byte_value (bg s) in
+  cmd 0x10 ;;
+  data_x_times color_value (WIDTH / 8 * HEIGHT) ;;
+  cmd 0x11 ;;
+  cmd 0x13 ;;
+  data_x_times color_value (WIDTH / 8 * HEIGHT) ;;
+  cmd 0x11.
+
+Definition update_achromatic_frame (k arg len : N) : M unit :=
+  cmd 0x10 ;;
+  send_buffer_helper (DArg k arg 0 len) ;;
+  cmd 0x11.
+
+Definition update_chromatic_frame (k arg len : N) : M unit :=
+  cmd 0x13 ;;
+  send_buffer_helper (DArg k arg 0 len) ;;
+  cmd 0x11 ;;
+  wait_until_idle.
+
+Definition update_color_frame (k l1 l2 : N) : M unit :=
+  update_achromatic_frame k 0 l1 ;;
+  update_chromatic_frame k 1 l2.
+
+Definition display_partial_frame (x y width height : N) : M unit :=
+  command 0x16 ;;
+  send_window x y width height ;;
+  wait_until_idle.
+
+Definition update_partial_achromatic_frame (k len x y width height : N) : M unit :=
+  cmd 0x14 ;;
+  send_window x y width height ;;
+  wait_until_idle ;;
+  data_each BNot 1 (DArg k 0 0 len).
+
+Definition update_partial_chromatic_frame (k len x y width height : N) : M unit :=
+  cmd 0x15 ;;
+  send_window x y width height ;;
+  wait_until_idle ;;
+  data_each BNot 1 (DArg k 0 0 len).
+
+Definition exec (k : N) (o : op) : option (M rval) :=
+  match o with
+  | OSleep => unit_ sleep
+  | OWakeUp => unit_ init
+  | OSetBg c => unit_ (modify (set_bg c))
+  | OGetBg => Some (s <- get ;; ret (RColor (bg s)))
+  | OWidth => Some (ret (RNum WIDTH))
+  | OHeight => Some (ret (RNum HEIGHT))
+  | OUpdateFrame len => unit_ (update_frame k len)
+  | OUpdatePartial len x y w h => unit_ (update_partial_frame k len x y w h)
+  | ODisplay => unit_ display_frame
+  | OUpdateAndDisplay len => unit_ (update_and_display_frame k len)
+  | OClear => unit_ clear_frame
+  | OSetLut r => unit_ (set_lut r)
+  | OWaitIdle => unit_ wait_until_idle
+  | OUpdateColor l1 l2 => unit_ (update_color_frame k l1 l2)
+  | OUpdateAchromatic len => unit_ (update_achromatic_frame k 0 len)
+  | OUpdateChromatic len => unit_ (update_chromatic_frame k 0 len)
+  | ODisplayPartial x y w h => unit_ (display_partial_frame x y w h)
+  | OUpdatePartialAchromatic len x y w h => unit_ (update_partial_achromatic_frame k len x y w h)
+  | OUpdatePartialChromatic len x y w h => unit_ (update_partial_chromatic_frame k len x y w h)
+  | _ => None
+  end.
 
 Definition drv (ft : feat) : driver :=
-  mkDriver WIDTH HEIGHT true d0 init exec.
+  mkDriver WIDTH HEIGHT true (mkD cWhite 0 false false 0 None) init exec.
 End Epd2in7b.
